@@ -281,3 +281,52 @@ M("C03", "frame-read-then-chop-two", F, _PF, "    p = io.BytesIO(data)\n    leng
 M("C03", "frame-prefix-little-endian", F, _PF, "    p = io.BytesIO(data)\n    length = int.from_bytes(p.read(2), \"little\")\n    return p.read(length - 4)\n", "C03.R10")
 M("C03", "frame-prefix-four-bytes", F, _PF, "    p = io.BytesIO(data)\n    length = u32be(p.read(4))\n    return p.read(length - 4)\n", "C03.R10")
 M("C03", "frame-empty-exit-too-wide", F, _PF, "    p = io.BytesIO(data)\n    length = u16be(p.read(2))\n    if length < 8:\n        return b\"\"\n    return p.read(length - 4)\n", "C03.R10")
+
+# ------------------------------------------------------------------------------------------------ R5: set comparison operators, early exits
+# (R5 compares what the path taken reports with what the encoding prescribes in every abstract state none / some / all of
+# each group enabled; `==`, `>`, `<`, `>=`, `<=`, truth and len() of the option set are set tests like issuperset)
+
+
+def _gate_early(all_test="options == everything", op=">=", order=("Comms", "Core", "Cleanup"), tail="    ret.extend(options)\n    return ret\n"):
+    sets = {"Comms": "comms", "Core": "core", "Cleanup": "cleanup"}
+    return (
+        "    everything = comms | core | cleanup\n    if " + all_test + ":\n        return [\"All\"]\n    ret = []\n"
+        "    for label, group in (" + ", ".join(f"(\"{k}\", {sets[k]})" for k in order) + "):\n"
+        "        if options " + op + " group:\n            ret.append(label)\n            options -= group\n" + tail
+    )
+
+
+T("C03", "twin-gate-early-all-equality", F, _GATE, _gate_early())
+T("C03", "twin-gate-early-all-mirrored-subset", F, _GATE, _gate_early(all_test="everything <= options"))
+T("C03", "twin-gate-early-all-by-size", F, _GATE, _gate_early(all_test="len(options) == len(everything)"))
+T("C03", "twin-gate-nothing-left-exit", F, _GATE, _gate_early(tail="    if not options:\n        return ret\n    return ret + sorted(options)\n"))
+T("C03", "twin-gate-operator-ge", F, "    if options.issuperset(cleanup):\n", "    if options >= cleanup:\n")
+M("C03", "gate-equality-instead-of-superset", F, "    if options.issuperset(comms):\n", "    if options == comms:\n", "C03.R5")
+M("C03", "gate-proper-subset-mirrored", F, "    if options.issuperset(cleanup):\n", "    if cleanup < options:\n", "C03.R5")
+M("C03", "gate-early-all-on-superset-of-core", F, _GATE, _gate_early(all_test="options >= core"), "C03.R5")
+M("C03", "gate-early-loop-wrong-order", F, _GATE, _gate_early(order=("Core", "Comms", "Cleanup")), "C03.R5")
+M("C03", "gate-early-exit-when-something-left", F, _GATE, _gate_early(tail="    if options:\n        return ret\n    return ret + sorted(options)\n"), "C03.R5")
+
+# ------------------------------------------------------------------------------------------------ R11: every decode returns a value of its own
+T("C03", "twin-memoised-string-decoder", F, "def null_terminated_str(data: bytes) -> str:", "@functools.lru_cache(maxsize=None)\ndef null_terminated_str(data: bytes) -> str:")
+T("C03", "twin-memoised-digest", F, "def sha256sum_pubkey(der_data: bytes) -> str:", "@functools.lru_cache(maxsize=64)\ndef sha256sum_pubkey(der_data: bytes) -> str:")
+M("C03", "execute-list-functools-cache", F, "def parse_execute_list(data: bytes) -> List[str]:", "@functools.cache\ndef parse_execute_list(data: bytes) -> List[str]:", "C03.R11")
+M("C03", "table-entry-memoised-wrapper", F, "    BeaconSetting.SETTING_GARGLE_SECTIONS: parse_gargle,", "    BeaconSetting.SETTING_GARGLE_SECTIONS: functools.lru_cache(maxsize=32)(parse_gargle),", "C03.R11")
+M("C03", "recover-module-level-cache", F, "", "", "C03.R11", edits=[
+    (F, "def parse_recover_binary(program: bytes) -> List[Tuple[str, Union[int, bool]]]:\n", "_RECOVER_PROGRAMS: Dict[bytes, list] = {}\n\n\ndef parse_recover_binary(program: bytes) -> List[Tuple[str, Union[int, bool]]]:\n"),
+    (F, "    rsteps: List[Tuple[str, Union[int, bool]]] = []\n    p = io.BytesIO(program)\n", "    if program in _RECOVER_PROGRAMS:\n        return _RECOVER_PROGRAMS[program]\n    rsteps: List[Tuple[str, Union[int, bool]]] = []\n    _RECOVER_PROGRAMS[program] = rsteps\n    p = io.BytesIO(program)\n"),
+])
+M("C03", "gate-default-argument-cache", F, "", "", "C03.R11", edits=[
+    (F, "def beacon_gate_options_string(bgo: BeaconGateOptions) -> list[str]:\n", "def beacon_gate_options_string(bgo: BeaconGateOptions, _seen={}) -> list[str]:\n"),
+    (F, "    ret.extend(options)\n    return ret\n", "    ret.extend(options)\n    return _seen.setdefault(bgo.dumps(), ret)\n"),
+])
+
+# the option set collected by an explicit loop (`if flag: options.add(name)` is a conditional member, not a fork)
+_GATE_COMP = "    options = {name for name in comms | core | cleanup if getattr(bgo, name)}\n"
+_GATE_ADD_LOOP = "    options = set()\n    for name in comms | core | cleanup:\n        if getattr(bgo, name):\n            options.add(name)\n"
+T("C03", "twin-gate-options-add-loop", F, _GATE_COMP, _GATE_ADD_LOOP)
+M("C03", "gate-options-add-loop-skips-cleanup", F, _GATE_COMP, _GATE_ADD_LOOP.replace("comms | core | cleanup", "comms | core"), "C03.R5")
+M("C03", "gate-options-add-loop-proper-superset", F, "", "", "C03.R5", edits=[
+    (F, _GATE_COMP, _GATE_ADD_LOOP),
+    (F, "    if options.issuperset(core):\n", "    if options > core:\n"),
+])
